@@ -38,9 +38,13 @@ SpecB == InitB /\ [][NextB]_<<vars, hist>>
 -----------------------------------------------------------------------------
 (* Coverage goals: decision branches that random behaviours reach rarely. Goals_*.cfg list GoalCover as an      *)
 (* invariant (one worker, breadth first): the first behaviour that reaches a goal is printed, and TLC stops once  *)
-(* every goal has been reached (AllGoals is "violated"). The printed behaviours are replayed like the others.    *)
+(* every goal has been reached (GoalCover is "violated"). The printed behaviours are replayed like the others.   *)
+(* The x_ goals are the witnesses of the properties that do not hold (TLC stops with the state in hand: the      *)
+(* standalone counterexamples are X_*.cfg).                                                                        *)
 GoalNames == <<"full", "refused", "redial", "inset", "self", "dialfail", "noop", "absent", "wake2", "cancelpark",
-               "cancel", "refill", "connected", "overshootround">>
+               "cancel", "refill", "connected", "overshootround",
+               \* witnesses: states in which a property that the code as it is does NOT keep is false
+               "x_hardLimit", "x_roundBelow", "x_inSetConnected", "x_inOrder", "x_view", "x_prot", "x_stranded", "x_dial">>
 Goal(g) ==
   CASE g = "full"       -> act.a = "WSize" /\ act.full                    \* a worker finds the set at its limit
     [] g = "refused"    -> act.a = "WHasBackoff" /\ act.refused           \* Connect refuses a peer in back-off
@@ -58,6 +62,14 @@ Goal(g) ==
     [] g = "connected"  -> act.a = "WProtect" /\ bud.inbound >= 1 /\ bud.fails = 0 /\ ~(\E w \in Workers : wk[w].ok)
                                                                           \* a peer found connected is added without a dial
     [] g = "overshootround" -> act.a = "WSize" /\ act.full /\ Size > Limit \* a worker of a round started above the limit
+    [] g = "x_hardLimit"      -> ~HardLimit
+    [] g = "x_roundBelow"     -> act.a = "LoopDiscover" /\ act.open /\ Size >= Limit   \* = RoundOnlyBelowLimit is violated by this step
+    [] g = "x_inSetConnected" -> ~InSetConnected
+    [] g = "x_inOrder"        -> ~ReportedInOrder
+    [] g = "x_view"           -> ~ViewConsistent
+    [] g = "x_prot"           -> ~ProtectedInSetOrPending
+    [] g = "x_stranded"       -> ~NoStrandedWaiter
+    [] g = "x_dial"           -> act.a = "WDial" /\ HasBackoff(act.p)                  \* = DialRespectsBackoff is violated by this step
 NGoals == Len(GoalNames)
 ASSUME \A i \in 1..NGoals : TLCSet(i, FALSE)
 GoalCover ==
